@@ -69,4 +69,10 @@ CHECKS = {
   "note": "Partial: fork_prefix and the window bound have no theorem yet (oracle on explored runs); liveness is only refuted. Trusted: Coq kernel + vm_compute, the hand-written model, scheduler + instrumented attributes. No axioms.",
   "design_ref": "DESIGN.md section 5 C10",
  },
+ "C12": {
+  "technique": "Coq proof (case analysis over endings x kill phases x signals of the child/collector/accessor model) + differential correspondence with real processes killed at controlled phases",
+  "text": "Theorems for every ending (return, raise, sys.exit variants), kill phase (none, before, during, between the two sends, after both) and signal: the parent's future is always resolved (so wait/as_completed return), join/result/exception/wait agree, values and exceptions round-trip, an unexpected signal surfaces as OSError (SIGTERM as result None), a kill after both sends does not change the report, and Thread reports the same as an unkilled Process. Tie: real mpservice Process objects are started with each ending, killed at each phase (blocking target, blocking __reduce__ between the sends, Finalize hook after the sends) with SIGTERM/SIGKILL/SIGUSR1 and queried with each accessor first; the resolved future is compared with the model inside Coq and an oracle requires all accessors, wait and as_completed to return and agree. The hang found this way was repaired (fix: commit 51c64a2).",
+  "note": "Partial: OS delivery of signals/EOF/exit codes is trusted; real processes cannot be scheduled, each case is one real run with a watchdog. No axioms.",
+  "design_ref": "DESIGN.md section 5 C12",
+ },
 }
